@@ -180,7 +180,7 @@ fn tap_block(flag: u8, data: &[u8]) -> Vec<u8> {
 }
 
 fn base_tap(rng: &mut Rng) -> Vec<u8> {
-    let n = *rng.pick(&[1usize, 20, 126, 127, 128, 300]);
+    let n = *rng.pick(&[1usize, 20, 126, 127, 128, 200, 255, 300, 513]);
     let data = rng.bytes(n);
     let mut hdr = vec![3u8];
     hdr.extend_from_slice(b"vcheck    ");
@@ -1047,9 +1047,9 @@ fn fast_load_request(m: &mut Machine, r: &mut Rng) {
     q.pc = 0x0556;
     q.iff1 = false;
     q.halted = false;
-    q.af = (*r.pick(&[0x00u16, 0xFF, 0x55]) << 8) | r.below(2) as u16;
+    q.af = (*r.pick(&[0x00u16, 0xFF, 0xFF, 0xFF, 0x55]) << 8) | if r.chance(2, 3) { 1 } else { 0 };
     q.ix = *r.pick(&[0x8000u16, 0x4000, 0xFFF0, 0x0000, 0x3FF0]);
-    q.de = *r.pick(&[0u16, 1, 17, 19, 128, 300, 0xFFFF]);
+    q.de = *r.pick(&[0u16, 1, 17, 19, 100, 128, 130, 150, 199, 200, 250, 255, 257, 299, 300, 0xFFFF]);
     m.set_regs(&q);
     for _ in 0..60 {
         let _ = m.step_res();
@@ -1122,7 +1122,14 @@ fn run_sub(case: &Case, is128: bool, ak: AK, variant: u64) -> Outcome {
             F::Vtx => {}
             F::Tap => {
                 if variant % 2 == 1 {
-                    for _ in 0..4 {
+                    // sometimes the deck has been playing for a while and was stopped inside a block
+                    // before the program asks the ROM for the next one
+                    if variant % 8 == 3 {
+                        m.emu.play_tape();
+                        frames(&mut m, 90 + (variant % 80) as usize, false);
+                        m.emu.stop_tape();
+                    }
+                    for _ in 0..6 {
                         fast_load_request(&mut m, &mut r);
                     }
                     frames(&mut m, 2, false);
